@@ -7,3 +7,6 @@
 pub(crate) mod support;
 mod c31_recovery;
 mod c08_eval;
+
+// counterexample replay (written by the runner for `cargo kani playback`, removed afterwards)
+mod playback_gen;
